@@ -8,7 +8,7 @@
 From Coq Require Import List Bool Arith Ascii String NArith ZArith.
 From UV.Base Require Import Order Res.
 From UV.Py Require Import PyStr.
-From UV.Schemes Require Import Common Generic LegacyOpenssl Gentoo GentooProofs Debian DebianProofs Semver SemverProofs Rpm.
+From UV.Schemes Require Import Common Generic LegacyOpenssl Gentoo GentooProofs Debian DebianProofs Semver SemverProofs Rpm Gem GemProofs.
 From UV.Ref Require Deb Semver Gentoo Openssl Rpm.
 Import ListNotations.
 
@@ -38,6 +38,10 @@ Theorem C03_legacy_openssl : forall a b, Openssl.in_grammar (l_patch a) = true -
   leg_cmp a b = Openssl.ref_legacy a b.
 Proof. exact Openssl.legacy_matches_reference. Qed.
 
+(* gem: Gem::Version of rubygems/version.rb, on the text the value is built from (all texts) *)
+Theorem C03_gem : forall n1 n2, gem_cmp (gem_build n1) (gem_build n2) = UV.Ref.Gem.ref_gem n1 n2.
+Proof. exact gem_matches_reference. Qed.
+
 (* non-vacuity: concrete versions meet the hypotheses *)
 Example C03_domains_inhabited :
   (exists a b, deb_ctor (list_ascii_of_string "1:2.4.7-1ubuntu1~rc1") = Ok a /\ deb_ctor (list_ascii_of_string "2.4.7+dfsg-1A") = Ok b /\ dok a = true /\ dok b = true)
@@ -54,4 +58,5 @@ Print Assumptions C03_rpm_rpmvercmp.
 Print Assumptions C03_gentoo_pms.
 Print Assumptions C03_semver_precedence.
 Print Assumptions C03_legacy_openssl.
+Print Assumptions C03_gem.
 Print Assumptions C03_domains_inhabited.
